@@ -44,6 +44,12 @@ def fn_returns(crate, path, pred, depth=0):
             return True
         if e[0] == "call" and e[1] in crate.bodies and e[1] != path:
             return fn_returns(crate, e[1], pred, depth + 1)
+        # a closure handed to a callee (Regex::replace_all(text, |caps| ..), map, unwrap_or_else ..): what it returns
+        # ends up in the callee's result
+        if e[0] == "agg" and isinstance(e[1], str) and e[1].startswith("closure:"):
+            cp = e[1][len("closure:"):].rstrip("()")
+            if cp in crate.bodies and cp != path:
+                return fn_returns(crate, cp, pred, depth + 1)
         return False
 
     r = False
@@ -62,6 +68,10 @@ def source_pred(crate, base_pred):
             return True
         if e[0] == "call" and e[1] in crate.bodies:
             return fn_returns(crate, e[1], base_pred)
+        if e[0] == "agg" and isinstance(e[1], str) and e[1].startswith("closure:"):
+            cp = e[1][len("closure:"):].rstrip("()")
+            if cp in crate.bodies:
+                return fn_returns(crate, cp, base_pred)
         return False
     return p
 
@@ -93,6 +103,12 @@ def template_sinks(body):
             a = body.call_args(bb)
             idx = 3 if ls == "replacen" else 2
             if len(a) > idx:
+                # a closure as Replacer: what it returns is inserted verbatim (no `$n` expansion) - not a template
+                rep = mir.peel(body.expand_vars(strip_sites(a[idx])))
+                while rep[0] in ("ref", "addr", "deref") and len(rep) > 1 and isinstance(rep[-1], tuple):
+                    rep = mir.peel(rep[-1])
+                if rep[0] == "agg" and isinstance(rep[1], str) and rep[1].startswith("closure:"):
+                    continue
                 out.append((bb, a[idx], "%s template" % sc))
         elif ls == "expand" and "Captures" in c:
             a = body.call_args(bb)
